@@ -28,6 +28,10 @@ fa     : replay of the extracted never-stopping EM trajectory (fa_observe, exact
          (theorem fa_em_is_trajectory_cut_at_first_stop).
 polar  : the shipped gaussian_random() (-DC19_PLAIN) is replayed from the std::rand answers it consumed through the
          extracted polar_fill: accepted attempts, x * sqrt(-2 ln s / s) / sqrt(D) per entry, number of answers used.
+forced : in the -DC19_PLAIN build the harness defines rand() itself (glibc's is reached through dlsym) and can FORCE the
+         std::rand answers: uniform_random() at the extreme answers 0, 1, RAND_MAX (contract u in [0, 1), theorem
+         uniform_random_in_unit_interval) and the polar method on attempts with radius exactly 0, exactly 1, corners of the
+         square (rejection logic, theorem polar_accepts_open_disc) - streams a seeded run meets with probability 2^-31 .. 2^-62.
 tests  : (labelled measured tests, not theorems) scale-optimal normalised stress of the global strategy
          over seeds, neighbour-distance error of the local strategy, first four moments and lag-1 product
          of the shipped polar-method Gaussian (build -DC19_PLAIN).
@@ -59,6 +63,7 @@ TRUSTED = [
     "|ll_t - ll_(t-1)| lies within 1e-9 of epsilon are not judged",
     "polar method: sqrt / log evaluated in binary64 by the check on the exact accepted (x, radius); the Gaussian law of the "
     "output is the classical theorem about the polar method given uniform std::rand, NOT proved here (moments measured)",
+    "plain build: the harness interposes rand() (forced answers for the boundary streams, glibc's rand via dlsym(RTLD_NEXT) otherwise)",
     "convergence of the stochastic iteration and the distribution of the Gaussian oracle are measured tests, not theorems",
 ]
 
@@ -1264,15 +1269,16 @@ def eval_forced(ctx, exe_plain, mexe, rng, st, count, cases=None):
             if len(us) != len(c["rand"]):
                 ctx.violation(pc, "uniform_random() harness printed %d values for %d answers" % (len(us), len(c["rand"])))
                 continue
-            for rv, u in zip(c["rand"], us):
-                if not (0.0 <= u < 1.0):
-                    ctx.violation(pc, "uniform_random() returned %r for the std::rand answer %d: not in [0, 1), so floor(u * k) can be k "
-                                      "(one past the neighbour list of the local SPE strategy; theorem local_draw_in_range needs u < 1)" % (u, rv))
-                    break
-                if Fraction(u) != Fraction(rv, RAND_M):
-                    ctx.mismatch(pc, "uniform_random() returned %r for the std::rand answer %d, the model has r / (RAND_MAX + 1) = %r" % (
-                        u, rv, rv / RAND_M))
-                    break
+            out = [(rv, u) for rv, u in zip(c["rand"], us) if not (0.0 <= u < 1.0)]
+            off = [(rv, u) for rv, u in zip(c["rand"], us) if Fraction(u) != Fraction(rv, RAND_M)] if not out else []
+            if out:
+                rv, u = out[0]
+                ctx.violation(pc, "uniform_random() returned %r for the std::rand answer %d: not in [0, 1), so floor(u * k) can be k "
+                                  "(one past the neighbour list of the local SPE strategy; theorem local_draw_in_range needs u < 1)" % (u, rv))
+            elif off:
+                rv, u = off[0]
+                ctx.mismatch(pc, "uniform_random() returned %r for the std::rand answer %d, the model has r / (RAND_MAX + 1) = %r" % (
+                    u, rv, rv / RAND_M))
             else:
                 st.nontrivial.add(json.dumps(["URN", len(us)]))
             continue
